@@ -113,6 +113,15 @@ CHECKS = {
              "expansion, per-byte/word surcharges; trusted base mc/evm_ref.py + mc/asm_ref.py",
         technique="bounded-exhaustive enumeration of programs x criteria x states with independent cost functions; "
                   "differential additivity oracle for totals"),
+    "C18": dict(
+        level="exploration", engine="E9b", ref="DESIGN.md section 4 C18",
+        text="all well-sorted formula trees of depth <= 1 (arity <= 3, all atoms and literals), depth 2 over a core "
+             "atom set and a slice (thorough: all) of depth 3 are built through the add_* constructors; under all 36 "
+             "valuations the constructed object, the parsed translate_formula text and the unsimplified tree must "
+             "agree; == between all pairs of depth <= 1 objects (and a slice of deeper pairs) must imply equal value",
+        note="ill-sorted equalities (True = 1) are outside the domain; trusted base: the evaluator and S-expression "
+             "reader in mc/c18.py",
+        technique="bounded-exhaustive enumeration of formula trees x valuations against an independent evaluator"),
 }
 
 NOT_YET = "check not built yet in this session (planned in DESIGN.md section 4); nothing is claimed for it"
